@@ -78,15 +78,15 @@ Section InitProofs.
   Qed.
 
   Theorem init_parents_member P mu o m : In m (init_parents P mu o) ->
-    In (ipoint m) P /\ ipen m = f (ipoint m) /\ iunp m = f (ipoint m).
+    In (ipt m) P /\ ipen m = f (ipt m) /\ iunp m = f (ipt m).
   Proof.
     destruct P as [|x0 P']; [simpl; contradiction|]. rewrite init_parents_cons. intros H.
-    apply in_map_iff in H. destruct H as [idx [<- _]]. unfold ind_of. cbn [ipoint ipen iunp].
+    apply in_map_iff in H. destruct H as [idx [<- _]]. unfold ind_of. cbn [ipt ipen iunp].
     split; [|split; reflexivity].
     destruct (nth_in_or_default idx (x0 :: P') x0) as [H|H]; [exact H|rewrite H; left; reflexivity].
   Qed.
 
-  Theorem init_parents_are_ind_of P mu o : init_parents P mu o = map ind_of (map ipoint (init_parents P mu o)).
+  Theorem init_parents_are_ind_of P mu o : init_parents P mu o = map ind_of (map ipt (init_parents P mu o)).
   Proof.
     rewrite map_map. rewrite <- (map_id (init_parents P mu o)) at 1. apply map_ext_in. intros m Hm.
     destruct (init_parents_member P mu o m Hm) as [_ [Hp Hu]]. destruct m as [x p u]. cbn in *. unfold ind_of. now subst.
@@ -95,7 +95,7 @@ Section InitProofs.
   (* (penalized, unpenalized) = (fp x, f x) for every penalized evaluation that agrees with f on the starting points *)
   Theorem init_parents_fitness_pair P mu o (fp : X -> V) :
     (forall x, In x P -> fp x = f x) ->
-    forall m, In m (init_parents P mu o) -> (ipen m, iunp m) = (fp (ipoint m), f (ipoint m)).
+    forall m, In m (init_parents P mu o) -> (ipen m, iunp m) = (fp (ipt m), f (ipt m)).
   Proof.
     intros Hfp m Hm. destruct (init_parents_member P mu o m Hm) as [Hin [Hp Hu]]. rewrite Hp, Hu, (Hfp _ Hin). reflexivity.
   Qed.
@@ -116,7 +116,7 @@ Section InitProofs.
 
   Theorem init_parents_prefix P mu o : P <> [] -> length P <= mu ->
     firstn (length P) (init_parents P mu o) = map ind_of P /\
-    firstn (length P) (map ipoint (init_parents P mu o)) = P.
+    firstn (length P) (map ipt (init_parents P mu o)) = P.
   Proof.
     destruct P as [|x0 P']; [congruence|]. intros _ Hle.
     assert (E : firstn (length (x0 :: P')) (init_parents (x0 :: P') mu o) = map ind_of (x0 :: P')).
@@ -124,7 +124,7 @@ Section InitProofs.
       rewrite firstn_app, map_length, seq_length, Nat.sub_diag, firstn_O, app_nil_r.
       rewrite firstn_all2 by (rewrite map_length, seq_length; lia).
       rewrite <- (map_map (fun idx => nth idx (x0 :: P') x0) ind_of). now rewrite map_nth_seq. }
-    split; [exact E|]. rewrite firstn_map, E, map_map. cbn [ipoint ind_of]. apply map_id.
+    split; [exact E|]. rewrite firstn_map, E, map_map. cbn [ipt ind_of]. apply map_id.
   Qed.
 
   Theorem init_parents_more_than_mu P mu o d : mu < length P -> oracle_ok (length P) mu o = true ->
@@ -139,7 +139,7 @@ Section InitProofs.
   Theorem init_solution_spec P mu o : P <> [] ->
     length (init_solution (init_parents P mu o)) = mu /\
     (forall x v, In (x, v) (init_solution (init_parents P mu o)) -> In x P /\ v = f x) /\
-    init_solution (init_parents P mu o) = map (fun x => (x, f x)) (map ipoint (init_parents P mu o)).
+    init_solution (init_parents P mu o) = map (fun x => (x, f x)) (map ipt (init_parents P mu o)).
   Proof.
     intros HP. unfold C14Init.init_solution. split; [|split].
     - rewrite map_length. now apply init_parents_length.
@@ -218,7 +218,7 @@ Section SsInit.
     Permutation (ssmocma_init X V f is1 P mu o) (init_parents X V f P mu o) /\
     length (ssmocma_init X V f is1 P mu o) = mu /\
     (forall m, In m (ssmocma_init X V f is1 P mu o) ->
-       In (ipoint m) P /\ ipen m = f (ipoint m) /\ iunp m = f (ipoint m)) /\
+       In (ipt m) P /\ ipen m = f (ipt m) /\ iunp m = f (ipt m)) /\
     partitioned (iind X V) is1 (ssmocma_init X V f is1 P mu o) /\
     Permutation (init_solution X V (ssmocma_init X V f is1 P mu o)) (init_solution X V (init_parents X V f P mu o)).
   Proof.
@@ -265,7 +265,7 @@ End SsSortId.
 
 (* ---------------------------------------------------------------------------------------------- *)
 (* the initial population satisfies the invariant of the generation loop (C14LoopProofs) *)
-Definition to_ind (m : iind (list Z) point) : ind := mk_ind (ipoint m) (iunp m) (ipen m).
+Definition to_ind (m : iind (list Z) point) : ind := mk_ind (ipt m) (iunp m) (ipen m).
 
 Theorem init_population_inv :
   forall (f : list Z -> list Z) feasible closest alpha mu (Pred : list Z -> Prop) (P : list (list Z)) oracle,
@@ -377,7 +377,7 @@ Example init_example_more_than_mu :
 Proof. repeat split. Qed.
 
 Example init_example_ssmocma :
-  let is1 := fun m : iind nat nat => ipoint m <? 5 in
+  let is1 := fun m : iind nat nat => ipt m <? 5 in
   ssmocma_init nat nat sq is1 [7; 3; 9; 2] 5 [1] = [mk_iind 3 9 9; mk_iind 3 9 9; mk_iind 2 4 4; mk_iind 9 81 81; mk_iind 7 49 49].
 Proof. reflexivity. Qed.
 
